@@ -532,6 +532,39 @@ func genCase(t *rapid.T) Case {
 		replaceKind(c.T, "named:string", "string")
 	}
 	c.V = gen.GenTV(t, cfg, c.T, false)
+	// the shared generator draws mostly flat types: put the struct below a
+	// named field, list, map, pointer, array or inline field of a new root
+	if w := rapid.IntRange(0, 9).Draw(t, "nest"); w >= 4 {
+		inner, innerV := c.T, c.V
+		more := func() *gen.TV { return gen.GenTV(t, cfg, inner, true) }
+		f := gen.FD{Name: "W", Tag: "w", T: inner}
+		fv := innerV
+		switch w {
+		case 5:
+			f.T = &gen.TD{Kind: "slice", Elem: inner}
+			fv = &gen.TV{Elems: []*gen.TV{innerV}}
+			if rapid.Bool().Draw(t, "two") {
+				fv.Elems = append(fv.Elems, more())
+			}
+		case 6:
+			f.T = &gen.TD{Kind: "map", Elem: inner}
+			fv = &gen.TV{Keys: []string{rapid.SampledFrom([]string{"k", "a b", "$", "x,y", "é"}).Draw(t, "wkey")}, Elems: []*gen.TV{innerV}}
+			if rapid.Bool().Draw(t, "two") {
+				fv.Keys = append(fv.Keys, "j")
+				fv.Elems = append(fv.Elems, more())
+			}
+		case 7:
+			f.T = &gen.TD{Kind: "ptr", Elem: inner}
+			fv = &gen.TV{Elems: []*gen.TV{innerV}}
+		case 8:
+			f.T = &gen.TD{Kind: "array", N: 2, Elem: inner}
+			fv = &gen.TV{Elems: []*gen.TV{more(), innerV}}
+		case 9:
+			f.Inline, f.Tag = true, ""
+		}
+		c.T = &gen.TD{Kind: "struct", Fields: []gen.FD{{Name: "V", Tag: "v", T: &gen.TD{Kind: "int"}}, f}}
+		c.V = &gen.TV{Elems: []*gen.TV{{I: 1}, fv}}
+	}
 	fixValues(c.T, c.V, false)
 
 	sites := sitesOf(c.T, c.V)
@@ -564,7 +597,18 @@ func genCase(t *rapid.T) Case {
 		return c
 	}
 	c.Kind = rapid.SampledFrom(avail).Draw(t, "kind")
-	s := &sites[rapid.SampledFrom(byKind[c.Kind]).Draw(t, "site")]
+	// prefer places the non-trivial rule is about: deep, or below a list, map or pointer
+	cands := byKind[c.Kind]
+	var deep []int
+	for _, i := range cands {
+		if ft := sites[i].ft; len(sites[i].path) >= 2 || ft.list || ft.mapk || ft.ptr {
+			deep = append(deep, i)
+		}
+	}
+	if len(deep) > 0 && rapid.IntRange(0, 3).Draw(t, "deep") > 0 {
+		cands = deep
+	}
+	s := &sites[rapid.SampledFrom(cands).Draw(t, "site")]
 	c.Path = s.path
 	base := s.td.Base()
 	switch c.Kind {
